@@ -350,6 +350,18 @@ mod tests {
     use super::*;
 
     #[test]
+    fn test_long_run_of_one_symbol() {
+        let mut sequence = vec![9u64; 600];
+        sequence.push(3);
+        let wt = WaveletTree::new(&sequence);
+        assert_eq!(wt.rank(9, 300), 300);
+        assert_eq!(wt.select(9, 300), Some(300));
+        assert_eq!(wt.select(3, 0), Some(600));
+        let decoded: Vec<u64> = wt.iter().map(|(_, s)| s).collect();
+        assert_eq!(decoded, sequence);
+    }
+
+    #[test]
     fn test_empty() {
         let wt = WaveletTree::new(&[]);
         assert!(wt.is_empty());
